@@ -80,6 +80,56 @@ def make_format(dspell, q, e, quoting, ld, encoding=None):
     return df
 
 
+CHILD = r"""
+import json, sys
+repo, = sys.argv[1:2]
+sys.path.insert(0, repo)
+import warnings
+warnings.simplefilter("ignore")
+from cutplace import data, rowio
+p = json.load(sys.stdin)
+df = data.DataFormat(data.FORMAT_DELIMITED)
+df.set_property(data.KEY_ENCODING, "utf-8")
+df.set_property(data.KEY_ITEM_DELIMITER, p["d"])
+df.set_property(data.KEY_QUOTE_CHARACTER, p["q"])
+df.set_property(data.KEY_ESCAPE_CHARACTER, p["e"])
+df.set_property(data.KEY_QUOTING, p["quoting"])
+df.set_property(data.KEY_LINE_DELIMITER, p["ld"])
+df.validate()
+try:
+    with rowio.DelimitedRowWriter(p["path"], df) as writer:
+        writer.write_rows(p["table"])
+    rows = [list(r) for r in rowio.delimited_rows(p["path"], df)]
+    print(json.dumps({"rows": rows}))
+except Exception as e:
+    print(json.dumps({"error": type(e).__name__ + ": " + str(e)[:100]}))
+"""
+_N_CHILD = [0]
+
+
+def other_locale(inp, table):
+    """the same file round trip in a process whose locale is C (no UTF-8 mode): the data format names the encoding, the
+    environment has no say; returns a message or None"""
+    import json
+    import subprocess
+    import sys
+    path = os.path.join(TMP, "rt_child_%d.csv" % os.getpid())
+    env = dict(os.environ, LC_ALL="C", LANG="C", PYTHONUTF8="0", PYTHONCOERCECLOCALE="0", PYTHONIOENCODING="utf-8")
+    params = {"d": inp["delim_spelling"], "q": inp["quote"], "e": inp["escape"], "quoting": inp["quoting"], "ld": inp["line_delimiter"], "table": table, "path": path}
+    p = subprocess.run([sys.executable, "-c", CHILD, _C.REPO], input=json.dumps(params), stdout=subprocess.PIPE, stderr=subprocess.PIPE, text=True, env=env, encoding="utf-8")
+    try:
+        os.remove(path)
+    except OSError:
+        pass
+    try:
+        out = json.loads(p.stdout.strip().splitlines()[-1])
+    except Exception:  # noqa
+        return "the round trip in a process with the C locale failed: %s" % (p.stderr.strip()[-200:],)
+    if out.get("rows") != [list(r) for r in table]:
+        return "in a process with the C locale the table does not come back: %r" % (out,)
+    return None
+
+
 def make_case(inp):
     kind = inp["kind"]
     if kind in ("w", "r"):
@@ -163,6 +213,12 @@ def make_case(inp):
     obs = {"written": w, "rows": rows, "ok": ok, "delim": df.item_delimiter}
     if not ok:
         obs["read_error"] = read_error
+    if use_file and ok and any(ord(ch) > 127 for r in table for cell in r for ch in cell):
+        _N_CHILD[0] += 1
+        if _N_CHILD[0] % 7 == 1 and _N_CHILD[0] < 150:
+            msg = other_locale(inp, table)
+            if msg:
+                obs["locale_mismatch"] = msg
     if inp.get("ascii"):
         obs["accepted_table"] = table
     c = "(RTCase %d%%N %d%%N %d%%N %s %s)" % (ord(df.item_delimiter), ord(df.quote_character), ord(df.escape_character), B(df.quoting == csv.QUOTE_ALL), T(table))
@@ -176,6 +232,10 @@ def classify(inp, obs, msg):
     if inp.get("kind") == "rt" and "field larger than field limit" in (obs.get("read_error") or "") and any(len(c) > 131072 for r in inp["table"] for c in r):
         return "C12/cell-longer-than-csv-field-limit"
     return None
+
+
+def extra_oracle(inp, obs):
+    return obs.get("locale_mismatch")
 
 
 def direct_oracle(inp, obs):
